@@ -181,7 +181,7 @@ def run(tier, seed, t0):
                  known="C01:K2-guard-leaked-with-mem-forget", known_cond=lambda nd: z3.BoolVal(True))
         scenario(e3, "c01_panic_in_scope", ["s_panic_in_scope", "end_scope2", "emit"], "a panic unwinding through a with_local_recorder scope restores the previous recorder")
         global_scenario(e3)
-    except sym.Unsupported as ex:
+    except _e3.ENC_ERRORS as ex:
         e3.error("c01", "MIR->SMT encoding of metrics::recorder scoping", ex)
     finish("C01", tier, seed, list(e3.res.obligations), t0, ASSUME + ["E3 callee models: " + ", ".join(sorted(e3.models))], sorted(e3.functions),
            explanation="MIR->SMT sequential encoding of scenario programs (Rust, /verif/mirharness) over LocalRecorderGuard::{new,drop}, with_local_recorder, with_recorder, set_global_recorder with a ghost scope stack as oracle")
